@@ -190,3 +190,20 @@ func TimeMs() time.Time {
 	ms := int64(next() % 4102444800000)
 	return time.UnixMilli(ms).UTC()
 }
+
+// harness-driven timers / tickers (engine only; harnesses using them are replayed in the engine)
+func TimerStub(on bool)                   {}
+func Timers() int                         { return 0 }
+func TimerField(i int, name string) int64 { return 0 }
+func FireTimer(i int)                     {}
+func TimerWaiting(i int) bool             { return false }
+func Tick()                               {}
+func NowAt(i int) int64                   { return 0 }
+func Done(i int) bool                     { return false }
+
+// WaitAll2 waits until every goroutine except the first `parked` spawned ones has finished and those
+// are blocked again (engine); natively it just sleeps.
+func WaitAll2(parked int) { time.Sleep(200 * time.Millisecond) }
+
+// PreemptionBound sets the maximum number of preemptive context switches explored per schedule.
+func PreemptionBound(k int) {}
